@@ -230,13 +230,13 @@ example : AslProofs.XdlX.WFX (.obj [(classKey, .str [80, 111, 105, 110, 116]), (
   have h3 : AslProofs.XdlX.validKey [120] :=
     ⟨120, [], rfl, Or.inl (by decide), by intro c hc; simp at hc⟩
   show AslProofs.XdlX.WFXM _
-  exact ⟨⟨AslProofs.XdlX.classKey_valid, by decide⟩, ⟨h2, trivial⟩, ⟨h3, by decide, by decide⟩, trivial⟩
+  exact ⟨⟨AslProofs.XdlX.classKey_valid, by simp [AslProofs.XdlX.WFX]⟩, ⟨h2, trivial⟩, ⟨h3, by decide, by decide⟩, trivial⟩
 example : AslProofs.XdlX.WFX (.obj [(classKey, .int 5), ([120], .int 1)]) ∧
     AslProofs.XdlX.WFX (.obj [(classKey, .str [104, 105, 32, 121, 111, 117])]) := by
   have h3 : AslProofs.XdlX.validKey [120] :=
     ⟨120, [], rfl, Or.inl (by decide), by intro c hc; simp at hc⟩
   exact ⟨⟨⟨AslProofs.XdlX.classKey_valid, by decide, by decide⟩, ⟨h3, by decide, by decide⟩, trivial⟩,
-    ⟨⟨AslProofs.XdlX.classKey_valid, by decide⟩, trivial⟩⟩
+    ⟨⟨AslProofs.XdlX.classKey_valid, by simp [AslProofs.XdlX.WFX]⟩, trivial⟩⟩
 /-- `{"$type":5,"x":1}` ↦ `{$type=5,x=1}` and `{"$type":"hi you"}` ↦ `{$type="hi you"}` (before c4482e8: `?{x=1}`, `hi you{}`) -/
 example : encode AslModel.Dtoa.fmtG ⟨false, false, false, false⟩ (.obj [(classKey, .int 5), ([120], .int 1)]) =
     [123, 36, 116, 121, 112, 101, 61, 53, 44, 120, 61, 49, 125] := by decide
